@@ -5,6 +5,8 @@ from pathlib import Path
 
 VERIF = Path(__file__).resolve().parent.parent
 
+NS_NOTE = 'Trusted: TLC, the observers in vf/observe.py (wrappers at class level, linearisation point = return of the public call), the projection vf/pack.py (ids = 64-bit digests, dense ranks), the mpmath oracle vf/oracle.py. Exhaustive result holds for NLive=3, ranks<=3(4), 3 iterations, 1 kill/signal; real runs use tiny flows (2 blocks, 8 neurons, 30 epochs) on 2-4 parameter models.'
+
 CHECKS = {
     "C04": dict(
         category="model_checking",
@@ -56,6 +58,65 @@ CHECKS = {
         design_ref="DESIGN.md 4 C18",
         note="Bounds: 3 extra names, <=2 names per add; names 1..20 and shapes up to 64 points sampled from the seed; "
              "where the statement is silent (re-adding a name with another default) deviations are MODEL-MISMATCH only.",
+    ),
+    "C01": dict(
+        category="model_checking",
+        technique="TLA+ spec NestedSampler.tla checked exhaustively by TLC (design configuration); real observed runs "
+                  "validated step by step by TLC against TraceNestedSampler.tla (trace validation)",
+        text="The state machine of the standard sampler (7-step critical section, pool, training, checkpoint, kill, "
+             "resume, run-again) is model checked for all bounded histories; then every iteration of a corpus of real "
+             "runs (ties via a discretised likelihood, a prior with a hole, several proposals/latent priors/"
+             "reparameterisations, kill+resume histories) is a step of the trace specification on which TLC evaluates "
+             "the replacement clause, sortedness, strictness, recorded-once and insertion-index clauses.",
+        design_ref="DESIGN.md 4 C01",
+        note=NS_NOTE,
+    ),
+    "C05": dict(
+        category="model_checking",
+        technique="terminal invariants of NestedSampler.tla checked by TLC; Done events of real runs validated by TLC "
+                  "against TraceNestedSampler.tla with numeric facts recomputed by an independent mpmath oracle",
+        text="TLC proves the terminal count/schedule invariants for all bounded histories incl. resumes; at the end of "
+             "every real run the oracle recomputes evidence, uncertainty, weights and volumes from the returned samples "
+             "alone, re-evaluates the model at every sample, checks birth likelihoods and the result dictionary; TLC "
+             "requires all of these at the Done event together with the counts of the recorded history. Standard "
+             "sampler here; the importance sampler's Done events are validated in the C03 corpus.",
+        design_ref="DESIGN.md 4 C05",
+        note=NS_NOTE,
+    ),
+    "C09": dict(
+        category="model_checking",
+        technique="population / draw / likelihood-call events of real runs validated by TLC against "
+                  "TraceNestedSampler.tla; NestedSampler.tla model checked",
+        text="Structural part of the property: every pool of every real run is checked for bounds, prior and "
+             "likelihood equal to the model's, size, each index handed out once, rejected draws unacceptable, and the "
+             "likelihood never being called outside the support. The distributional clause (pool ~ prior restricted to "
+             "the contour) is reduced to these facts and otherwise assumed.",
+        design_ref="DESIGN.md 4 C09",
+        note=NS_NOTE + " Not covered: statistical indistinguishability from brute-force rejection sampling; latent "
+             "contour radius check.",
+    ),
+    "C12": dict(
+        category="model_checking",
+        technique="Kill/Resume actions of NestedSampler.tla model checked by TLC; real kill/resume histories (os._exit at "
+                  "chosen likelihood calls, fresh process per resume) validated by TLC against TraceNestedSampler.tla",
+        text="TLC explores every placement of a kill and resume in the bounded model; real histories with 1-4 kills are "
+             "traced across processes: at each resume the deep digest of the restored sampler must equal the digest at "
+             "the checkpoint, the evaluation counter and the sampling time must continue cumulatively, and the "
+             "completed run must satisfy the C01/C05 clauses.",
+        design_ref="DESIGN.md 4 C12",
+        note=NS_NOTE + " Sampling time is checked against the wall clock with a 1 s tolerance (downtime between "
+             "processes is several seconds). Standard sampler here; INS resume is in the C03 corpus.",
+    ),
+    "C15": dict(
+        category="model_checking",
+        technique="loop-control actions of NestedSampler.tla (StopRule, Idempotent) model checked by TLC; per-iteration "
+                  "condition values, run-again and resume-after-finish histories of real runs validated by TLC",
+        text="TLC checks that the loop body is entered only while the condition holds and that a finalised run is "
+             "unchanged by run-again/resume; in real runs every iteration event requires the previous condition to "
+             "exceed the tolerance, finalise requires it not to, the history must report the compared values, and "
+             "run()-again / resume from the final checkpoint must return the same digest and evaluation count.",
+        design_ref="DESIGN.md 4 C15",
+        note=NS_NOTE + " Known finding cap_stopped_rerun (known_findings.json). INS criteria are covered in the C03 corpus.",
     ),
 }
 
